@@ -132,6 +132,11 @@ GPrice(c, a, pr, s) ==
 GPriceExact(c, a, pr) ==
   \A s \in 1..c.T : a.group[s] # 0 /\ Active(c, a, s) =>
        SetSum(pr, GroupMembers(c, a, s)) % Cardinality(GroupMembers(c, a, s)) = 0
+\* families must keep these means integral (part of the ASSUME of every run: a family that does not is a machinery error, never a verdict)
+GroupPricesOK(c) ==
+  \A i \in 1..Len(c.assets) : LET a == c.assets[i] IN
+     /\ (a.kind \in {"contract", "multi"} => GPriceExact(c, a, a.price))
+     /\ (a.kind = "transport" => GPriceExact(c, a, a.costts))
 
 (***************************************************************************)
 (* Result of one asset doing `legs` in step s from sub-state st:           *)
